@@ -607,8 +607,14 @@ def tecmp_jobs():
                 add(n, 3, dt=dt, dlc=dlc, tier="quick" if q else "thorough")
     for dt in (0, 1, 5, 8, 0x10, 0x20, 0x80, 0xFF, 0xFF00, 0xFFFF):
         add(44, 3, dt=dt, dlc=8, tier="quick" if dt in (0x80, 0xFFFF, 8) else "thorough")
-    for decl in (0, 1, 17):
-        add(44, 3, dt=2, dlc=8, decl=decl, tier="quick" if decl in (0, 17) else "thorough")
+    for decl in (0, 1, 17, 0xFFE3, 0xFFE4, 0xFFFF, 0x8000):
+        add(44, 3, dt=2, dlc=8, decl=decl, tier="quick" if decl in (0, 17, 0xFFE4) else "thorough")
+    # the header gate alone, with the declared length (and every header byte) symbolic; HSZ=-1: size argument symbolic too
+    for hsz in (-1, 0, 1, 27, 28, 29, 40, 44, 64, 100, 300):
+        jobs.append(Job("tecmp.cpp", "h_tecmp_header", defs={"HSZ": hsz, "N": 40, "MT": 3}, unwind=320, tier="quick" if hsz in (-1, 27, 28, 29, 44) else "thorough",
+                        in_max=max(hsz, 28) + 16, mem_gb=2,
+                        sym="all 28 header bytes incl. the declared payload length (all 65536 values); HSZ=-1: the size argument over all 64-bit values >= 28",
+                        outside="HSZ=-1 relies on the gate reading only the 28 header bytes (checked by the pointer checks of the same run)"))
     seen, out = set(), []
     for j in jobs:
         k = tuple(sorted(j.defs.items()))
